@@ -51,6 +51,15 @@ func scenariosOf(prop, tier string) []*Scenario {
 
 func register(c *CheckDef) { checks[c.Property] = c }
 
+// outDir is where evidence and replays go: /verif, or VERIF_OUT when the checks are pointed at a
+// scratch tree (seeded/matrix.py), so that such runs do not overwrite the evidence of the real tree.
+func outDir() string {
+	if d := os.Getenv("VERIF_OUT"); d != "" {
+		return d
+	}
+	return verifDir()
+}
+
 func verifDir() string {
 	if d := os.Getenv("VERIF_DIR"); d != "" {
 		return d
@@ -297,12 +306,23 @@ func report(c *CheckDef, tier string, seed int, units []Unit, results []*Stats, 
 	}
 	sort.Slice(viols, func(i, j int) bool { return len(viols[i].Choices) < len(viols[j].Choices) })
 	seenSig := map[string]bool{}
+	perShape := map[string]int{}
+	printed, suppressed := 0, 0
 	for _, v := range viols {
 		if seenSig[v.Sig] {
 			continue
 		}
 		seenSig[v.Sig] = true
-		p := writeReplay(filepath.Join(verifDir(), "replays"), c.Property, v)
+		exit = 1
+		// at most three replays per message shape and 25 in all: the rest are the same failure on other inputs
+		shape := signature("", v.Message)
+		if perShape[shape] >= 3 || printed >= 25 {
+			suppressed++
+			continue
+		}
+		perShape[shape]++
+		printed++
+		p := writeReplay(filepath.Join(outDir(), "replays"), c.Property, v)
 		fmt.Printf("VIOLATION property=%s replay=%s\n", c.Property, p)
 		first := v.Message
 		if i := strings.IndexByte(first, '\n'); i >= 0 {
@@ -310,6 +330,9 @@ func report(c *CheckDef, tier string, seed int, units []Unit, results []*Stats, 
 		}
 		fmt.Printf("  scenario: %s\n  %s\n", v.Scenario, first)
 		exit = 1
+	}
+	if suppressed > 0 {
+		fmt.Printf("  ... and %d more violating scenarios with the same message shapes (not listed)\n", suppressed)
 	}
 	if len(samples) == 0 {
 		samples = append(samples, "no execution produced observations")
@@ -343,8 +366,8 @@ func report(c *CheckDef, tier string, seed int, units []Unit, results []*Stats, 
 		},
 	}
 	b, _ := json.MarshalIndent(ev, "", " ")
-	os.MkdirAll(filepath.Join(verifDir(), "evidence"), 0o755)
-	if err := os.WriteFile(filepath.Join(verifDir(), "evidence", c.Property+".json"), b, 0o644); err != nil {
+	os.MkdirAll(filepath.Join(outDir(), "evidence"), 0o755)
+	if err := os.WriteFile(filepath.Join(outDir(), "evidence", c.Property+".json"), b, 0o644); err != nil {
 		fmt.Println("INFRA: cannot write evidence:", err)
 		return 2
 	}
